@@ -564,7 +564,13 @@ func (n *NSQD) DeleteExistingTopic(topicName string) error {
 	// we do this before removing the topic from map below (with no lock)
 	// so that any incoming writes will error and not create a new topic
 	// to enforce ordering
-	topic.Delete()
+	err := topic.Delete()
+	if err != nil {
+		// somebody else is already deleting (or closing) this topic and takes it out
+		// of the map when its files are gone: unlinking it now would let a new topic
+		// of the same name start on files that are still being removed
+		return err
+	}
 
 	n.Lock()
 	delete(n.topicMap, topicName)
